@@ -51,15 +51,19 @@ static std::string exec_cli(std::vector<std::string> args, const std::string &ou
   return o;
 }
 
-struct Fixture { Bytes plain2, file2, tampered, badhdr, plainA, plainB; std::string pA, pAenc, pOut, pDec; };
+struct Fixture { Bytes plain2, file2, tampered, badhdr, plainA, plainB, plain4, file4, plain1, file1; std::string pA, pAenc, pOut, pDec; };
 static Fixture FX;
 static void make_fixture() {
-  FX.plain2 = fo::content(0, 2 * S + 7);
+  FX.plain2 = fo::content(3, 2 * S + 7); // every block ends in a byte that looks like PKCS#7 padding
   FX.file2 = ref::encrypt(FX.plain2, KEY, 1, 0, fo::cstr_seed("seed"), 2, S);
   FX.tampered = FX.file2; FX.tampered[FX.tampered.size() - 3] ^= 1;
   FX.badhdr = FX.file2; FX.badhdr[9] = 7;
   FX.plainA = fo::content(0, 3 * S + 1);
   FX.plainB = fo::content(4, 5 * S + 3);
+  FX.plain4 = fo::content(3, 9 * S + 16);
+  FX.file4 = ref::encrypt(FX.plain4, KEY, 2, 1, fo::cstr_seed("f4"), 4, S);
+  FX.plain1 = fo::content(3, 3 * S);
+  FX.file1 = ref::encrypt(FX.plain1, KEY, 3, 2, fo::cstr_seed("f1"), 1, S);
 }
 static void make_files() { // per-process files for the command-line operations
   TMP = "/dev/shm/wencry-c15-" + std::to_string(getpid());
@@ -71,8 +75,8 @@ static void make_files() { // per-process files for the command-line operations
 static void remove_files() { for (auto p : {FX.pA, FX.pAenc, FX.pOut, FX.pDec}) unlink(p.c_str()); rmdir(TMP.c_str()); }
 
 static const char *OPN[] = {"enc(T=1,n=0)", "enc(T=4,multi-chunk,CTR,md5)", "enc(T=16,n=40)", "dec(valid,T=2)", "dec(tampered)", "dec(wrong key)", "dec(mode byte out of range)", "verify(valid)", "verify(tampered)",
-                            "cli -e -i F -k K --cmode 1 -o O", "cli -e -d (two modes)", "cli -edv (fails inside a cluster)", "cli -d -i F.enc -k K -o O", "cli -v -i F.enc -k K", "cli -n -e (no input)", "cli --cmode 9 -e -i F"};
-static const int NOPS = 16;
+                            "cli -e -i F -k K --cmode 1 -o O", "cli -e -d (two modes)", "cli -edv (fails inside a cluster)", "cli -d -i F.enc -k K -o O", "cli -v -i F.enc -k K", "cli -n -e (no input)", "cli --cmode 9 -e -i F", "dec(valid,T=4,10 chunks,pad-like)", "dec(valid,T=1,4 chunks,pad-like)"};
+static const int NOPS = 18;
 static std::string do_op(int op) {
   unsigned char wrong[16];
   memcpy(wrong, KEY, 16);
@@ -94,6 +98,8 @@ static std::string do_op(int op) {
   case 13: return exec_cli({"wencry", "-v", "-i", FX.pAenc, "-k", KEYTXT}, "", {});
   case 14: return exec_cli({"wencry", "-n", "-e"}, "", {});
   case 15: return exec_cli({"wencry", "--cmode", "9", "-e", "-i", FX.pA}, "", {});
+  case 16: { fo::OpResult r = fo::wc_decrypt(FX.file4, KEY, 4); return std::string("ret=") + (r.ret ? "1" : "0") + ",out=" + dig(r.out); }
+  case 17: { fo::OpResult r = fo::wc_decrypt(FX.file1, KEY, 1); return std::string("ret=") + (r.ret ? "1" : "0") + ",out=" + dig(r.out); }
   }
   return "?";
 }
@@ -120,7 +126,7 @@ static std::string run_history(const Case &c) {
     if (o != SOLO[ops[i]] && bad.empty()) {
       std::string hist;
       for (size_t k = 0; k <= i; k++) hist += (k ? " ; " : "") + std::string(OPN[ops[k]]);
-      bad = std::string("differs-from-fresh-process:") + (ops[i] >= 9 ? "cli" : "library") + "|operation #" + std::to_string(i + 1) + " of [" + hist + "] observes {" + o + "}, alone in a fresh process it observes {" + SOLO[ops[i]] + "}";
+      bad = std::string("differs-from-fresh-process:") + (ops[i] >= 9 && ops[i] <= 15 ? "cli" : "library") + "|operation #" + std::to_string(i + 1) + " of [" + hist + "] observes {" + o + "}, alone in a fresh process it observes {" + SOLO[ops[i]] + "}";
     }
   }
   remove_files();
@@ -143,7 +149,7 @@ int main(int argc, char **argv) {
       std::vector<std::vector<int>> next;
       for (auto &h : level)
         for (int op = 0; op < NOPS; op++) {
-          if (d == 4 && !(op < 9 ? (op % 2 == 0) : true) ) continue; // depth 4: every second library operation, all command-line ones
+          if (d == 4 && (op < 9 && op % 2)) continue; // depth 4: every second library operation, all command-line ones
           auto g = h; g.push_back(op); next.push_back(g);
           Case c;
           std::string s;
